@@ -22,13 +22,17 @@ in the hole for the vacuum type.  The change of variables λ = λ(v) across the 
 PROVED here for the mass integrand (monotone change of variables + the sign of dλ/dv), so the
 hypothesis `hsub` of `SedovFuncs_eval_of_substitution_partial` has no analogue in this file.
 
-What remains `_partial`: the ω-special branches (omega2 / omega3 closed forms): the exact
-differential is proved at the exactly special ω (`sedov_mass_differential_omega2_partial`,
-`…omega3_partial`) but the boundary analysis at the inner end (essential singularity exp(c/(v-v0))
-of λ and g) is not mechanised; the singular type is proved in Props/C11/Sedov.lean.
+The ω-special branches are covered too, AT the exactly special ω (the code uses those closed forms
+on the band |denom| ≤ 1e-4 around it, where they are approximations — oracle tolerance 2|denom|):
+`sedov_mass_omega3` (ω = k(2-γ), always standard type) and `sedov_mass_omega2` (ω = (2(γ-1)+k)/γ,
+always vacuum type; the essential singularity exp(c/(v - v0)) of the closed form lies outside the
+vacuum branch).  The singular solution type is proved in Props/C11/Sedov.lean.  So, together, the
+mass half of C11 holds for every solution type and every singularity branch of the code at the
+parameters where the coded closed forms are exact.
 -/
 import EPV.Lemmas.SedovMassVac
-import EPV.Lemmas.SedovODEO3
+import EPV.Lemmas.SedovMassO2
+import EPV.Lemmas.SedovMassO3
 import EPV.Lemmas.SedovFields
 import EPV.Spec.Sedov
 
@@ -160,80 +164,40 @@ theorem sedov_mass_standard_code (qc : SedovConsts.P) (Ac : AcceptedC qc) (h9 : 
     intro h0; apply h12; rw [consts_c12, hγ, hk, hω, h0, abs_zero]; norm_num
   exact sedov_mass_standard q kn A hC htype hd3 g hg t ht
 
-/-! ### The ω-special branches: exact differential only -/
+/-! ### The ω-special branches, at the exactly special ω -/
 
-/-- omega2 (PARTIAL): at the exactly special ω the mass ODE is the exact differential
-d/dv [λ^k g (1 - X v/2)] = (k-ω) g λ^(k-1) dλ/dv.  Missing for the integral identity: continuity of
-λ^k g (1 - X v/2) at the two ends of the vacuum branch (v = vv: g ~ x4^a5; and the closed form has an
-essential singularity exp(c/(v - v0)) at v0, which lies outside the vacuum branch). -/
-theorem sedov_mass_differential_omega2_partial {p : SedovFuncsO2.P} {γ ω v : ℝ} (kn : ℕ) (h1 : 1 ≤ kn)
+/-- omega2: the mass ODE is an exact differential -/
+theorem sedov_mass_exact_differential_omega2 {p : SedovFuncsO2.P} {γ ω v : ℝ} (kn : ℕ) (h1 : 1 ≤ kn)
     (hC : O2Consts p γ kn ω) (I : StdInterior γ kn ω v ∨ VacInterior γ kn ω v) (hω2 : K.denom2 γ kn ω = 0) :
     HasDerivAt (fun v => SedovFuncsO2.L1.l_fun p v ^ kn * SedovFuncsO2.L1.g_fun p v * (1 - ((kn : ℝ) + 2 - ω) / 2 * v))
-      (((kn : ℝ) - ω) * (SedovFuncsO2.L1.g_fun p v * SedovFuncsO2.L1.l_fun p v ^ (kn - 1)) * SedovFuncsO2.L1.l_fun_dv p v) v := by
-  have S := (Std.signs_of_interior I).toO2
-  have B := O2.bases hC S hω2
-  obtain ⟨dL, -, dG, -⟩ := O2.hasDerivAt p v B
-  have dA : HasDerivAt (fun v : ℝ => 1 - ((kn : ℝ) + 2 - ω) / 2 * v) (-(((kn : ℝ) + 2 - ω) / 2)) v := by
-    have := ((hasDerivAt_id v).const_mul (((kn : ℝ) + 2 - ω) / 2)).const_sub 1
-    simpa using this
-  have hprod := ((dL.pow kn).mul dG).mul dA
-  have hm := O2.mass_ode hC S hω2
-  have hLpos := O2.l_pos p v B
-  have hv := S.hv
-  have hγ := S.hγ
-  have hF : SedovFuncsO2.L1.f_fun p v = p.a_val * v * SedovFuncsO2.L1.l_fun p v := by simp only [epv_leaf]
-  have hFd : SedovFuncsO2.L1.f_fun_dv p v = p.a_val * SedovFuncsO2.L1.l_fun p v + p.a_val * v * SedovFuncsO2.L1.l_fun_dv p v := by
-    rw [O2.f_dv p γ v B hC.gamm1 hC.gamp1, O2.l_dv p γ v B hC.gamm1 hC.gamp1]; field_simp
-  have hav : p.a_val = 1 / 4 * ((kn : ℝ) + 2 - ω) * (γ + 1) := hC.a_val
-  obtain ⟨j, rfl⟩ : ∃ j, kn = j + 1 := ⟨kn - 1, by omega⟩
-  unfold massODEv at hm
-  rw [hF, hFd, hav] at hm
-  refine hprod.congr_deriv ?_
-  simp only [Pi.mul_apply, Pi.pow_apply, Nat.add_sub_cancel, Nat.cast_add, Nat.cast_one] at hm ⊢
-  generalize SedovFuncsO2.L1.l_fun p v = L at *
-  generalize SedovFuncsO2.L1.g_fun p v = G at *
-  generalize SedovFuncsO2.L1.l_fun_dv p v = Ld at *
-  generalize SedovFuncsO2.L1.g_fun_dv p v = Gd at *
-  have hL0 := hLpos.ne'
-  have hg1 : γ + 1 ≠ 0 := by linarith
-  field_simp at hm
-  linear_combination (-(L ^ j) / 4) * hm
+      (((kn : ℝ) - ω) * (SedovFuncsO2.L1.g_fun p v * SedovFuncsO2.L1.l_fun p v ^ (kn - 1)) * SedovFuncsO2.L1.l_fun_dv p v) v :=
+  Mass.M2_hasDerivAt hC (Std.signs_of_interior I).toO2 hω2 kn rfl h1
 
-/-- omega3 (PARTIAL): the same exact differential at the exactly special ω = k(2-γ).  Missing for the
-integral identity: the limit of λ^k g (1 - X v/2) at v0 (as for special_singularity none, with the
-exponents of the omega3 closed form). -/
-theorem sedov_mass_differential_omega3_partial {p : SedovFuncsO3.P} {γ ω v : ℝ} (kn : ℕ) (h1 : 1 ≤ kn)
+/-- omega3: the mass ODE is an exact differential -/
+theorem sedov_mass_exact_differential_omega3 {p : SedovFuncsO3.P} {γ ω v : ℝ} (kn : ℕ) (h1 : 1 ≤ kn)
     (hC : O3Consts p γ kn ω) (I : StdInterior γ kn ω v ∨ VacInterior γ kn ω v) (hω3 : K.denom3 γ kn ω = 0) :
     HasDerivAt (fun v => SedovFuncsO3.L1.l_fun p v ^ kn * SedovFuncsO3.L1.g_fun p v * (1 - ((kn : ℝ) + 2 - ω) / 2 * v))
-      (((kn : ℝ) - ω) * (SedovFuncsO3.L1.g_fun p v * SedovFuncsO3.L1.l_fun p v ^ (kn - 1)) * SedovFuncsO3.L1.l_fun_dv p v) v := by
-  have S := (Std.signs_of_interior I).toO2
-  have B := O3.bases hC S
-  obtain ⟨dL, -, dG, -⟩ := O3.hasDerivAt p v B
-  have dA : HasDerivAt (fun v : ℝ => 1 - ((kn : ℝ) + 2 - ω) / 2 * v) (-(((kn : ℝ) + 2 - ω) / 2)) v := by
-    have := ((hasDerivAt_id v).const_mul (((kn : ℝ) + 2 - ω) / 2)).const_sub 1
-    simpa using this
-  have hprod := ((dL.pow kn).mul dG).mul dA
-  have hm := O3.mass_ode hC S hω3
-  have hLpos := O3.l_pos p v B
-  have hv := S.hv
-  have hγ := S.hγ
-  have hF : SedovFuncsO3.L1.f_fun p v = p.a_val * v * SedovFuncsO3.L1.l_fun p v := by simp only [epv_leaf]
-  have hFd : SedovFuncsO3.L1.f_fun_dv p v = p.a_val * SedovFuncsO3.L1.l_fun p v + p.a_val * v * SedovFuncsO3.L1.l_fun_dv p v := by
-    rw [O3.f_dv p v B, O3.l_dv p v B]; field_simp
-  have hav : p.a_val = 1 / 4 * ((kn : ℝ) + 2 - ω) * (γ + 1) := hC.a_val
-  obtain ⟨j, rfl⟩ : ∃ j, kn = j + 1 := ⟨kn - 1, by omega⟩
-  unfold massODEv at hm
-  rw [hF, hFd, hav] at hm
-  refine hprod.congr_deriv ?_
-  simp only [Pi.mul_apply, Pi.pow_apply, Nat.add_sub_cancel, Nat.cast_add, Nat.cast_one] at hm ⊢
-  generalize SedovFuncsO3.L1.l_fun p v = L at *
-  generalize SedovFuncsO3.L1.g_fun p v = G at *
-  generalize SedovFuncsO3.L1.l_fun_dv p v = Ld at *
-  generalize SedovFuncsO3.L1.g_fun_dv p v = Gd at *
-  have hL0 := hLpos.ne'
-  have hg1 : γ + 1 ≠ 0 := by linarith
-  field_simp at hm
-  linear_combination (-(L ^ j) / 4) * hm
+      (((kn : ℝ) - ω) * (SedovFuncsO3.L1.g_fun p v * SedovFuncsO3.L1.l_fun p v ^ (kn - 1)) * SedovFuncsO3.L1.l_fun_dv p v) v :=
+  Mass.M3_hasDerivAt hC (Std.signs_of_interior I).toO2 hω3 kn rfl h1
+
+/-- **C11, mass, special_singularity omega2 (full, at the exactly special ω; vacuum type).** -/
+theorem sedov_mass_omega2 (q : SedovShock.P) (kn : ℕ) (A : Admissible q kn) {p : SedovFuncsO2.P}
+    (hC : O2Consts p q.gamma kn q.omega) (hω2 : K.denom2 q.gamma kn q.omega = 0) (g : ℝ → ℝ)
+    (hg : ∀ v ∈ Ioo (v2 q.gamma kn q.omega) (vv kn q.omega), g (SedovFuncsO2.L1.l_fun p v) = SedovFuncsO2.L1.g_fun p v)
+    (hhole : ∀ x ∈ Ioo 0 (SedovFuncsO2.L1.l_fun p (vv kn q.omega)), g x = 0)
+    (t : ℝ) (ht : 0 < t) :
+    MassConserved kn q.rho0 q.omega (density q g t) (SedovShock.r2 q t) := by
+  rw [mass_iff_integral q kn A g t ht]
+  exact Mass.mass_integral_o2 kn (one_le_of_admissible A) hC (params_of_admissible A) hω2 g hg hhole
+
+/-- **C11, mass, special_singularity omega3 (full, at the exactly special ω; standard type).** -/
+theorem sedov_mass_omega3 (q : SedovShock.P) (kn : ℕ) (A : Admissible q kn) {p : SedovFuncsO3.P}
+    (hC : O3Consts p q.gamma kn q.omega) (hω3 : K.denom3 q.gamma kn q.omega = 0) (g : ℝ → ℝ)
+    (hg : ∀ v ∈ Ioo (v0 q.gamma kn q.omega) (v2 q.gamma kn q.omega), g (SedovFuncsO3.L1.l_fun p v) = SedovFuncsO3.L1.g_fun p v)
+    (t : ℝ) (ht : 0 < t) :
+    MassConserved kn q.rho0 q.omega (density q g t) (SedovShock.r2 q t) := by
+  rw [mass_iff_integral q kn A g t ht]
+  exact Mass.mass_integral_o3 kn (one_le_of_admissible A) hC (params_of_admissible A) hω3 g hg
 
 /-- the hypothesis `hg` is satisfiable: λ is strictly increasing on the open standard branch, hence
 injective, so a density similarity function of λ with g(λ(v)) = G(v) on the whole branch EXISTS -/
@@ -270,6 +234,21 @@ example : ∃ (q : SedovShock.P) (kn : ℕ) (p : SedovFuncs.P), Admissible q kn 
 /-- a vacuum-type problem: γ = 7/5, k = 3, ω = 5/2 (denom2 = 3/10 ≠ 0) -/
 example : Params (7/5) (3 : ℕ) (5/2) ∧ vstar (7/5) (3 : ℕ) < v2 (7/5) (3 : ℕ) (5/2) ∧ K.denom2 (7/5) (3 : ℕ) (5/2) ≠ 0 := by
   refine ⟨⟨by norm_num, by norm_num, by norm_num⟩, by norm_num [v2, vstar], by norm_num [K.denom2]⟩
+
+/-- the omega3 problem γ = 7/5, k = 3, ω = 9/5 and the omega2 problem γ = 7/5, k = 3, ω = 19/7 with the
+constants `__init__` computes -/
+def massExO3 : SedovFuncsO3.P :=
+  { a0 := 5/8, a1 := 7/16, a2 := -5/16, a3 := 15/16, a_val := 48/25, b_val := 6, c_val := 56/25, e_val := 8/5,
+    gamm1 := 2/5, gamma := 7/5, gamp1 := 12/5, geometry := 3, gpogm := 6, omega := 9/5, xg2 := 16/5 }
+def massExO2 : SedovFuncsO2.P :=
+  { a0 := 7/8, a5 := -9/16, a_val := 48/35, b_val := 6, c_val := 8/5, e_val := 8/5, gamm1 := 2/5, gamma := 7/5,
+    gamp1 := 12/5, geometry := 3, gpogm := 6, omega := 19/7, xg2 := 16/7 }
+example : O3Consts massExO3 (7/5) (3 : ℕ) (9/5) ∧ K.denom3 (7/5) (3 : ℕ) (9/5) = 0 := by
+  refine ⟨⟨?_, ?_, ?_, ?_, ?_, ?_, ?_, ?_, ?_, ?_, ?_, ?_, ?_, ?_, ?_⟩, by norm_num [K.denom3]⟩ <;>
+  norm_num [massExO3, K.a0, K.a1, K.a2, K.a3, K.a_val, K.b_val, K.c_val, K.e_val]
+example : O2Consts massExO2 (7/5) (3 : ℕ) (19/7) ∧ K.denom2 (7/5) (3 : ℕ) (19/7) = 0 := by
+  refine ⟨⟨?_, ?_, ?_, ?_, ?_, ?_, ?_, ?_, ?_, ?_, ?_, ?_, ?_⟩, by norm_num [K.denom2]⟩ <;>
+  norm_num [massExO2, K.a0, K.a5, K.a_val, K.b_val, K.c_val, K.e_val]
 
 end
 
